@@ -74,3 +74,17 @@ pub fn pipe_eof(rd: RawFd) -> bool {
     r == 0
 }
 
+
+/// End of a run that had descriptor number 0 for itself: whatever sits on 0 now (a descriptor the
+/// library leaked, or nothing) is replaced by a placeholder, so that no later run is handed 0.
+pub fn reoccupy_fd0() {
+    // SAFETY: called only while FD0_LOCK is held exclusively; plain close/open.
+    unsafe {
+        libc::close(0);
+        let fd = libc::open(b"/dev/null\0".as_ptr() as *const libc::c_char, libc::O_RDONLY | libc::O_CLOEXEC);
+        if fd > 0 {
+            libc::dup2(fd, 0);
+            libc::close(fd);
+        }
+    }
+}
